@@ -105,6 +105,8 @@ theorem tokState_quoted (q : Bytes) (hq : ∀ x ∈ q, x ≠ 39) : tokState (som
 /-- a bare word: non-empty, no separator, does not start with a quote. -/
 def BareWord (t : Bytes) : Prop := t ≠ [] ∧ (∀ x ∈ t, isSep x = false) ∧ t.head? ≠ some 39
 
+instance (t : Bytes) : Decidable (BareWord t) := by unfold BareWord; infer_instance
+
 /-- a quoted token: `'…'` without a quote inside. -/
 def QuotedTok (t : Bytes) : Prop := ∃ body, t = 39 :: body ++ [39] ∧ ∀ x ∈ body, x ≠ 39
 
